@@ -337,10 +337,17 @@ class Translator:
         if isinstance(n, ast.IfExp):
             c = self.truth(self.eval(n.test, env, mod, depth), n.test)
             return self.eval(n.body if c else n.orelse, env, mod, depth)
-        if isinstance(n, ast.Tuple):
-            return tuple(self.eval(x, env, mod, depth) for x in n.elts)
-        if isinstance(n, ast.List):
-            return [self.eval(x, env, mod, depth) for x in n.elts]
+        if isinstance(n, (ast.Tuple, ast.List)):
+            out = []
+            for x in n.elts:
+                if isinstance(x, ast.Starred):
+                    v = self.eval(x.value, env, mod, depth)
+                    if not isinstance(v, (list, tuple, range, str)):
+                        raise Unmodelled("starred expression over a symbolic value")
+                    out.extend(list(v))
+                else:
+                    out.append(self.eval(x, env, mod, depth))
+            return tuple(out) if isinstance(n, ast.Tuple) else out
         if isinstance(n, ast.Dict):
             return {_pykey(self.eval(k, env, mod, depth)): self.eval(v, env, mod, depth) for k, v in zip(n.keys, n.values)}
         if isinstance(n, (ast.ListComp, ast.GeneratorExp)):
